@@ -680,7 +680,9 @@ class PointJacobi(object):
     def __neg__(self):
         """Return negated point."""
         x, y, z = self.__coords
-        return PointJacobi(self.__curve, x, -y, z, self.__order)
+        return PointJacobi(
+            self.__curve, x, -y % self.__curve.p(), z, self.__order
+        )
 
 
 class Point(object):
